@@ -455,6 +455,17 @@ func (r *c05dRound) run(ops int) (finished bool) {
 		buf = buf[:runtime.Stack(buf, true)]
 		dump := filepath.Join(os.Getenv("VERIF_REPORT_DIR"), r.rep.Property+".dhcpd.stall.txt")
 		_ = os.WriteFile(dump, buf, 0o644)
+		// Goroutines that have been waiting for a lock for a minute or more
+		// inside the package under test (no panic before): nothing will ever
+		// release it.  For the property that forbids deadlocks this is the
+		// violation itself, and a DHCP server stuck on its own lock answers no
+		// client any more (C10); elsewhere the run is inconclusive.
+		if fn, n, stack := c05dLongLockWaiters(string(buf)); (r.rep.Property == "C05" || r.rep.Property == "C10") && n > 0 && r.panics.Load() == 0 {
+			r.rep.Violate("deadlock:dhcpd:"+fn, fmt.Sprintf("round %d: the goroutines did not finish within %s; %d goroutine(s) have been waiting for a lock inside the DHCP server for a minute or more", r.n, time.Since(start).Round(time.Second), n),
+				map[string]any{"one_waiting_goroutine": stack, "goroutine_dump": dump})
+
+			return false
+		}
 		r.rep.Inconcl(fmt.Sprintf("round %d: the goroutines did not finish within %s, %d panic(s) recovered before (goroutine dump: %s)",
 			r.n, time.Since(start).Round(time.Second), r.panics.Load(), dump))
 
@@ -1303,4 +1314,46 @@ func (r *c05dRound) waitOrStall(wg *sync.WaitGroup) (ok bool) {
 			}
 		}
 	}
+}
+
+// c05dLongLockWaiters looks in a goroutine dump for goroutines that have been
+// blocked on a mutex for at least a minute with a function of this package
+// (not of the harness) on the stack.  It returns the innermost such function,
+// their number and one stack.
+func c05dLongLockWaiters(dump string) (fn string, n int, stack string) {
+	for _, g := range strings.Split(dump, "\n\n") {
+		g = strings.TrimSpace(g)
+		if !strings.HasPrefix(g, "goroutine ") {
+			continue
+		}
+		lines := strings.Split(g, "\n")
+		head := lines[0]
+		if !strings.Contains(head, "minutes]") || !(strings.Contains(head, "Mutex.Lock") || strings.Contains(head, "RWMutex") || strings.Contains(head, "semacquire")) {
+			continue
+		}
+		inner := ""
+		for i := 1; i+1 < len(lines); i += 2 {
+			f, loc := lines[i], lines[i+1]
+			if strings.Contains(f, "/internal/dhcpd.") && !strings.Contains(loc, "_test.go") {
+				inner = f[strings.LastIndex(f, "/")+1:]
+				if k := strings.LastIndex(inner, "("); k > 0 {
+					inner = inner[:k]
+				}
+
+				break
+			}
+		}
+		if inner == "" {
+			continue
+		}
+		n++
+		if fn == "" {
+			fn, stack = inner, g
+			if len(stack) > 1500 {
+				stack = stack[:1500]
+			}
+		}
+	}
+
+	return fn, n, stack
 }
